@@ -24,6 +24,8 @@ func c17define() c17prog {
 	opt.String("choice", "", opt.ValidValues("apple", "apricot", "banana"))
 	opt.String("cho", "", opt.SuggestedValues("alpha", "avocado")) // its name is a strict prefix of "choice"
 	opt.Int("level", 0, opt.SuggestedValues("1", "10", "2"))
+	opt.Int("level2", 0)                                                                      // sorts in front of "level=": '2' is smaller than '='
+	opt.String("stage", "", opt.ValidValues("dev", "staging"), opt.ValidValues("qa", "prod")) // two modifiers
 	opt.String("define", "", opt.SuggestedValues("os=linux", "os=darwin", "arch=arm"))
 	opt.SetCommandFn(fn)
 	cmd := opt.NewCommand("cmd", "a command").ArgCompletions("alpha", "alps", "beta")
@@ -47,8 +49,8 @@ func c17define() c17prog {
 }
 
 // names available at each level reached by the earlier words
-var c17optsRoot = []string{"flag", "f", "str", "string", "choice", "cho", "level", "define", "help", "?"}
-var c17optsCmd = []string{"flag", "f", "str", "string", "choice", "cho", "level", "define", "help", "?", "cmdopt"}
+var c17optsRoot = []string{"flag", "f", "str", "string", "choice", "cho", "level", "level2", "stage", "define", "help", "?"}
+var c17optsCmd = []string{"flag", "f", "str", "string", "choice", "cho", "level", "level2", "stage", "define", "help", "?", "cmdopt"}
 var c17cmdsRoot = []string{"cmd", "wrap", "cmdother", "help"}
 var c17cmdsCmd = []string{"sub", "help", "alpha", "alps", "beta"}
 var c17cmdsSub = []string{"help"}
@@ -154,10 +156,13 @@ func VerifC17_Completion() {
 		tok := k
 		if strings.HasPrefix(w, "-") {
 			tok = "--" + k
-			if k == "str" || k == "string" || k == "choice" || k == "cho" || k == "level" || k == "define" {
+			if k == "str" || k == "string" || k == "choice" || k == "cho" || k == "level" || k == "level2" || k == "stage" || k == "define" {
 				tok += "=1"
 				if k == "choice" {
 					tok = "--choice=apple"
+				}
+				if k == "stage" {
+					tok = "--stage=qa"
 				}
 			}
 		}
@@ -171,11 +176,11 @@ func VerifC17_Completion() {
 func VerifC17_Values() {
 	vNativeReset()
 	zsh := vBool("zsh")
-	which := vInt("which", 0, 2)
+	which := vInt("which", 0, 3)
 	pre := vString("pre")
 	vAssume(vMatches(pre, `[^\t\n\f\r =\x00]*`))
-	name := []string{"choice", "level", "define"}[which]
-	values := [][]string{{"apple", "apricot", "banana"}, {"1", "10", "2"}, {"os=linux", "os=darwin", "arch=arm"}}[which]
+	name := []string{"choice", "level", "define", "stage"}[which]
+	values := [][]string{{"apple", "apricot", "banana"}, {"1", "10", "2"}, {"os=linux", "os=darwin", "arch=arm"}, {"dev", "staging", "qa", "prod"}}[which]
 	vSetenv("COMP_LINE", "prog --"+name+"="+pre)
 	if zsh {
 		vSetenv("ZSHELL", "true")
